@@ -1397,13 +1397,19 @@ class ThreadsafeForwardingResult(TestResult):
         self._test_start = self._now()
         super().startTest(test)
 
+    def stopTest(self, test):
+        super().stopTest(test)
+        # Tag changes made after the outcome was forwarded are test-local too.
+        self._test_tags = set(), set()
+
     def wasSuccessful(self):
         return self.result.wasSuccessful()
 
     def tags(self, new_tags, gone_tags):
         """See `TestResult`."""
         super().tags(new_tags, gone_tags)
-        if self._test_start is not None:
+        if self._tags.parent is not None:
+            # Inside a test (also after its outcome has been forwarded).
             self._test_tags = _merge_tags(self._test_tags, (new_tags, gone_tags))
         else:
             self._global_tags = _merge_tags(self._global_tags, (new_tags, gone_tags))
